@@ -79,6 +79,13 @@ def seek (delta : Int) : P Unit := fun _ pos =>
   if 0 ≤ (pos : Int) + delta then .ok ((), ((pos : Int) + delta).toNat)
   else .error (.st .io)
 
+/-- `sbdf_skip_bytes` on a stream that cannot seek (a pipe, a socket: `fseek` answers ESPIPE):
+    the bytes are read and dropped.  On a stream that can seek it is `seek`. -/
+def discard (n : Int) : P Unit := fun d pos =>
+  match readN n.toNat d pos with
+  | .ok (_, pos') => .ok ((), pos')
+  | .error e => .error e
+
 /-- `malloc(n)` of an input-derived size (`n` as the mathematical value of the `size_t`
     argument; a negative `int` converted to `size_t` is huge): refused above the cap. -/
 def alloc (c : Cfg) (n : Int) : P Unit :=
